@@ -108,15 +108,48 @@ def _input_mutations_v1(fi, skip_params=('self', 'cls')):
 
 
 def cached_functions(db):
+    """Functions whose result is shared storage: cache decorators, and functions that hand out an entry of a dict memo
+    (module-level or instance attribute) they fill themselves -- `MEMO[k] = v ... return v` / `return MEMO[k]` without a copy."""
     out = {}
     for fi in db.all_functions():
         if any('cache' in d for d in fi.decorators):
             out[fi.name] = fi
+            continue
+        stored = {}          # value name -> memo text
+        memo_texts = set()
+        class_memos = set()
+        if fi.cls is not None:
+            ci = fi.cls if hasattr(fi.cls, 'methods') else None
+            if ci is not None:
+                for m_ in ci.methods.values():
+                    for n_ in walk_no_nested(m_.node):
+                        if isinstance(n_, ast.Assign) and _is_empty_dict(n_.value):
+                            for t_ in n_.targets:
+                                if isinstance(t_, ast.Attribute) and isinstance(t_.value, ast.Name) and t_.value.id == 'self':
+                                    class_memos.add(t_.attr)
+        for n in walk_no_nested(fi.node):
+            if isinstance(n, ast.Assign) and len(n.targets) == 1 and isinstance(n.targets[0], ast.Subscript):
+                base = n.targets[0].value
+                bt = ast.unparse(base)
+                is_memo = (isinstance(base, ast.Name) and base.id in fi.module.assigns and _is_empty_dict(fi.module.assigns[base.id])) or \
+                          (isinstance(base, ast.Attribute) and isinstance(base.value, ast.Name) and base.value.id == 'self' and (base.attr in class_memos or 'cache' in base.attr.lower()))
+                if is_memo:
+                    memo_texts.add(bt)
+                    if isinstance(n.value, ast.Name):
+                        stored[n.value.id] = bt
+        if not memo_texts:
+            continue
+        for n in walk_no_nested(fi.node):
+            if isinstance(n, ast.Return) and n.value is not None:
+                v = n.value
+                if (isinstance(v, ast.Name) and v.id in stored) or (isinstance(v, ast.Subscript) and ast.unparse(v.value) in memo_texts):
+                    out[fi.name] = fi
     return out
 
 
 def memo_inplace(db, module_names):
-    """(caller fi, stmt, callee fi) for in-place mutation of a memoised function's result."""
+    """(caller fi, stmt, callee fi) for in-place mutation (augmented assignment, subscript store, out=) of a memoised
+    function's result through any alias of it (may-alias, joined over branches)."""
     cached = cached_functions(db)
     found = []
     if not cached:
@@ -125,26 +158,10 @@ def memo_inplace(db, module_names):
         mod = db.module(mn)
         fns = list(mod.functions.values()) + [m for c in mod.classes.values() for m in c.methods.values()]
         for fi in fns:
-            tainted = {}
-            for st in sorted([n for n in walk_no_nested(fi.node) if isinstance(n, (ast.Assign, ast.AugAssign))], key=lambda s: (s.lineno, s.col_offset)):
-                if isinstance(st, ast.Assign):
-                    callee = None
-                    for n in ast.walk(st.value):
-                        if isinstance(n, ast.Call):
-                            nm = n.func.attr if isinstance(n.func, ast.Attribute) else (n.func.id if isinstance(n.func, ast.Name) else '')
-                            if nm in cached:
-                                callee = cached[nm]
-                    names = [x.id for t in st.targets for x in ast.walk(t) if isinstance(x, ast.Name) and isinstance(x.ctx, ast.Store)]
-                    for nme in names:
-                        if callee is not None:
-                            tainted[nme] = callee
-                        else:
-                            tainted.pop(nme, None)
-                else:
-                    t = st.target
-                    base = t.value if isinstance(t, ast.Subscript) else t
-                    if isinstance(base, ast.Name) and base.id in tainted:
-                        found.append((fi, st, tainted[base.id]))
+            for st, nm, reason in shared_entry_mutations(fi, tables=False, call_sources=cached):
+                callee = cached.get(reason.split('(')[0].split('.')[-1])
+                if callee is not None and callee is not fi:
+                    found.append((fi, st, callee))
     return found
 
 
@@ -215,6 +232,13 @@ def _memo_fills(fi, memos, module_level, builtins):
                         memo, keyexpr = memo_of(sub.value), sub.slice
             if memo:
                 block = n.handlers[0].body
+        if block is None and isinstance(n, ast.If) and isinstance(n.test, ast.Compare) and len(n.test.ops) == 1 and isinstance(n.test.ops[0], ast.Is) \
+                and isinstance(n.test.left, ast.Name) and isinstance(n.test.comparators[0], ast.Constant) and n.test.comparators[0].value is None:
+            # v = MEMO.get(key) ... if v is None: <fill>
+            for d in local_defs.get(n.test.left.id, []):
+                v = d.value
+                if isinstance(v, ast.Call) and isinstance(v.func, ast.Attribute) and v.func.attr == 'get' and memo_of(v.func.value) and v.args:
+                    block, keyexpr, memo = n.body, v.args[0], memo_of(v.func.value)
         if block is None:
             continue
         stores = [st for st in block for sub in ast.walk(st) if isinstance(st, ast.Assign) and isinstance(sub, ast.Subscript) and isinstance(sub.ctx, ast.Store) and memo_of(sub.value) == memo]
@@ -295,7 +319,7 @@ def input_mutations(fi, skip_params=('self', 'cls')):
     return [(st, nm) for st, nm, _ in shared_entry_mutations(fi, init={p: p for p in params}, tables=False)]
 
 
-def shared_entry_mutations(fi, sites=None, init=None, tables=True):
+def shared_entry_mutations(fi, sites=None, init=None, tables=True, call_sources=None, attr_sources=None):
     """In-place writes through a name that may alias an entry of a table shared between loop iterations.
 
     Inside a `for` loop, `v = T[i][j]` (T bound outside the loop, basic/int/key indexing: the same object or a view)
@@ -336,10 +360,16 @@ def shared_entry_mutations(fi, sites=None, init=None, tables=True):
         if isinstance(v, ast.Subscript):
             r = value_alias(v.value, st, ctx)
             return r if r and _basic_index(v.slice) else None
+        if isinstance(v, ast.Attribute) and attr_sources and ast.unparse(v) in attr_sources:
+            return ast.unparse(v)
         if isinstance(v, ast.Attribute) and v.attr in VIEW_ATTRS:
             return value_alias(v.value, st, ctx)
         if isinstance(v, ast.Call):
             fn = v.func
+            if call_sources:
+                cname = fn.attr if isinstance(fn, ast.Attribute) else (fn.id if isinstance(fn, ast.Name) else '')
+                if cname in call_sources:
+                    return '%s(...)' % cname
             if isinstance(fn, ast.Attribute) and fn.attr in VIEW_METHODS:
                 return value_alias(fn.value, st, ctx)
             name = fn.attr if isinstance(fn, ast.Attribute) else (fn.id if isinstance(fn, ast.Name) else '')
@@ -373,6 +403,8 @@ def shared_entry_mutations(fi, sites=None, init=None, tables=True):
                     for i, e in enumerate(t.elts):
                         if isinstance(e, ast.Name):
                             ve = s.value.elts[i] if isinstance(s.value, (ast.Tuple, ast.List)) and len(s.value.elts) == len(t.elts) else None
+                            if ve is None and isinstance(s.value, (ast.GeneratorExp, ast.ListComp)):
+                                ve = s.value.elt          # every unpacked element is produced by the same expression
                             r = value_alias(ve, st, ctx) if ve is not None else None
                             if r:
                                 st[e.id] = r
